@@ -33,6 +33,7 @@ type seedFile struct {
 	Data     []byte
 	Password string
 	Hostile  bool // hand-written hostile file (run unmutated; also a seed)
+	NoMutate bool // walked unmutated only (expensive to walk)
 }
 
 const maxSeedLen = 100 << 10
@@ -117,6 +118,35 @@ func classicFile(objs map[int]string, trailerExtra string) []byte {
 func deflate(data []byte) []byte {
 	var b bytes.Buffer
 	zw, _ := zlib.NewWriterLevel(&b, zlib.BestCompression)
+	_, _ = zw.Write(data)
+	_ = zw.Close()
+	return b.Bytes()
+}
+
+// deepInlineImage is a content stream whose inline image header nests n
+// dictionaries (mixed: alternating arrays and dictionaries, n of each).
+func deepInlineImage(n int, mixed bool) []byte {
+	open, cl := "<</A", ">>"
+	if mixed {
+		open, cl = "[<</A", ">>]"
+	}
+	var b bytes.Buffer
+	b.Grow(n*(len(open)+len(cl)) + 100)
+	b.WriteString("q BI /W 1 /H 1 /BPC 8 /CS /G /DP ")
+	for i := 0; i < n; i++ {
+		b.WriteString(open)
+	}
+	b.WriteString(" 1 ")
+	for i := 0; i < n; i++ {
+		b.WriteString(cl)
+	}
+	b.WriteString(" ID x EI Q BT /F1 12 Tf (after) Tj ET\n")
+	return b.Bytes()
+}
+
+func deflateFast(data []byte) []byte {
+	var b bytes.Buffer
+	zw, _ := zlib.NewWriterLevel(&b, zlib.BestSpeed)
 	_, _ = zw.Write(data)
 	_ = zw.Close()
 	return b.Bytes()
@@ -516,6 +546,52 @@ func generatedHostile() []seedFile {
 		}
 		objs[3] = "<< /Type /Page /Parent 2 0 R /MediaBox [0 0 200 200] /Contents 4 0 R /Resources << /Font << " + fontRes + ">> >> >>"
 		add("hostile-widths-"+ft+".pdf", classicFile(objs, ""))
+	}
+
+	// inline-image headers with dictionaries nested inside dictionaries (not
+	// inside arrays), and the mixed form, as Flate-compressed page content:
+	// 11 and 1000 levels, and six million (24 MB of content in about 24 KB),
+	// which overflows a 1 GB stack if the depth counter does not count them
+	for _, c := range []struct {
+		name  string
+		n     int
+		mixed bool
+	}{
+		{"hostile-inline-image-header-deep-dicts-11.pdf", 11, false},
+		{"hostile-inline-image-header-deep-dicts-1000.pdf", 1000, false},
+		{"hostile-inline-image-header-deep-mixed-1000.pdf", 1000, true},
+		{"hostile-inline-image-header-deep-dicts.pdf", 6000000, false},
+	} {
+		data := classicFile(map[int]string{
+			1: "<< /Type /Catalog /Pages 2 0 R >>",
+			2: "<< /Type /Pages /Count 1 /Kids [ 3 0 R ] >>",
+			3: pageObj, 5: fontObj,
+			4: streamObj("/Filter /FlateDecode", deflateFast(deepInlineImage(c.n, c.mixed))),
+		}, "")
+		out = append(out, seedFile{Name: c.name, Data: data, Hostile: true, NoMutate: c.n > 100000})
+	}
+
+	// object streams declaring up to 2^24 members over a body of a few dozen
+	// bytes; 24 compressed objects refer to the container
+	for _, n := range []int{10000, 10001, 65536, 1 << 20, 16000000, 1<<24 - 1, 1 << 24} {
+		head, body := "", ""
+		comp := map[int][2]int{}
+		cat := "<< /Type /Catalog /Pages 2 0 R"
+		for i := 0; i < 24; i++ {
+			num := 20 + i
+			head += fmt.Sprintf("%d %d ", num, 2*i)
+			body += "7 "
+			comp[num] = [2]int{13, i}
+			cat += fmt.Sprintf(" /K%d %d 0 R", i, num)
+		}
+		body = head + body
+		name := fmt.Sprintf("hostile-objstm-huge-N-%d.pdf", n)
+		add(name, xrefStreamFile(map[int]string{
+			1: cat + " >>",
+			2: "<< /Type /Pages /Count 1 /Kids [ 3 0 R ] >>",
+			3: pageObj, 4: contentObj, 5: fontObj,
+			13: streamObj(fmt.Sprintf("/Type /ObjStm /N %d /First %d", n, len(head)), []byte(body)),
+		}, comp))
 	}
 
 	// images: a valid 256x256 JPEG as image XObject, and the same data under
